@@ -62,12 +62,15 @@ V3Common == {"nonce", "tip", "paymaster_data", "nonce_da_mode", "fee_da_mode", "
              "rb.l1_gas.max_amount", "rb.l1_gas.max_price", "rb.l2_gas.max_amount",
              "rb.l2_gas.max_price", "rb.l1_data_gas.max_amount", "rb.l1_data_gas.max_price",
              "rb.l1_data_gas.drop"}
+TxInvoke3 == P("invoke3", V3Common \cup {"sender_address", "calldata.elem", "calldata.append",
+                                        "account_deployment_data"})
+TxL1Handler == P("l1handler", {"contract_address", "entry_point_selector", "calldata.elem",
+                               "calldata.append", "nonce", "version"})
 TxLevel ==
   P("invoke0", {"contract_address", "entry_point_selector", "calldata.elem", "calldata.append",
                 "max_fee", "version"})
   \cup P("invoke1", {"sender_address", "calldata.elem", "calldata.append", "max_fee", "nonce", "version"})
-  \cup P("invoke3", V3Common \cup {"sender_address", "calldata.elem", "calldata.append",
-                                   "account_deployment_data"})
+  \cup TxInvoke3
   \cup P("declare1", {"class_hash", "sender_address", "max_fee", "nonce", "version"})
   \cup P("declare2", {"class_hash", "sender_address", "max_fee", "nonce", "compiled_class_hash", "version"})
   \cup P("declare3", V3Common \cup {"class_hash", "sender_address", "compiled_class_hash",
@@ -76,8 +79,7 @@ TxLevel ==
                             "ctor_calldata.append", "max_fee", "nonce", "version"})
   \cup P("deployaccount3", V3Common \cup {"contract_address", "class_hash", "salt",
                                           "ctor_calldata.elem", "ctor_calldata.append"})
-  \cup P("l1handler", {"contract_address", "entry_point_selector", "calldata.elem",
-                       "calldata.append", "nonce", "version"})
+  \cup TxL1Handler
 TxProofFacts == {"tx.invoke3.proof_facts"}        \* optional field introduced with 0.14.1
 
 Rc == {"rc.fee", "rc.tx_hash", "rc.execution_status.revert", "rc.execution_status.unrevert",
@@ -108,6 +110,31 @@ MCCommitted ==
 MCTxFields == TxLevel \cup TxProofFacts
 MCSdFields == Sd \cup SdMigrated
 MCSuFields == Su
+
+(* shapes: which tamperings have a target.  "full" populates everything.  "emptydiff" has every
+   transaction kind but not one state-diff entry (only the .add alterations apply to its diff).
+   "empty" has neither transactions nor diff entries.  "bare" has an invoke v3 and an L1 handler
+   transaction without events, messages or reverts, and a diff that only deploys one contract
+   (no classes). *)
+SdAdds == {"sd.storage.add", "sd.nonce.add", "sd.deployed.add", "sd.declared_v0.add",
+           "sd.declared_v1.add", "sd.replaced.add", "sd.migrated.add"}
+All == Base \cup HdrL2 \cup SdMigrated \cup TxProofFacts
+MCShapes == {"full", "emptydiff", "empty", "bare"}
+MCTargets ==
+  [s \in MCShapes |->
+     CASE s = "full" -> All
+       [] s = "emptydiff" -> All \ ((Sd \cup SdMigrated) \ SdAdds)
+       [] s = "empty" -> Hdr \cup HdrL2 \cup Su \cup SdAdds
+       [] s = "bare" -> Hdr \cup HdrL2 \cup Su \cup SdAdds \cup TxInvoke3 \cup TxL1Handler \cup TxProofFacts
+                        \cup {"txs.reorder", "txs.drop_last", "txs.duplicate_last",
+                              "tx.invoke3.hash", "tx.invoke3.hash_and_receipt", "tx.l1handler.hash",
+                              "tx.l1handler.hash_and_receipt", "tx.invoke3.signature.elem",
+                              "tx.invoke3.signature.append", "tx.invoke3.signature.drop",
+                              "rc.fee", "rc.tx_hash", "rc.execution_status.revert",
+                              "rc.l1_gas_consumed", "rc.l1_data_gas_consumed", "msg.add", "ev.add",
+                              "sd.deployed.class_hash", "sd.deployed.addr", "sd.deployed.remove"}]
+MCEmptyDiffShapes == {"emptydiff", "empty"}
+MCClassShapes == {"full"}
 
 (* older formats: used only for the repository's real fixture chains (no synthetic builder).
    post-0.7 Pedersen hash: number, state root, sequencer, timestamp, tx count, tx commitment
